@@ -202,10 +202,20 @@ class VC:
 
     # ---- Hoare-style loop rule: run the statements before / inside / after the k-th top-level loop of the real function
     def _loop_parts(self, qual, loop=0):
+        """(function, statements before the loop, the loop, statements after it).  `loop` is the ordinal of a top-level loop, or a tuple
+        (k0, k1, ...) descending into nested loops: (k0, k1) is loop number k1 among the statements of the BODY of top-level loop k0 - its
+        prefix / suffix are then the statements of that body before / after it."""
         import ast as _ast
         fi = self.repo.lookup(qual)
         self.repo.touch(fi)
         body = [s for s in fi.node.body if not (isinstance(s, _ast.Expr) and isinstance(getattr(s, "value", None), _ast.Constant))]
+        if isinstance(loop, tuple):
+            for k in loop[:-1]:
+                idxs = [i for i, s in enumerate(body) if isinstance(s, (_ast.For, _ast.While))]
+                if k >= len(idxs):
+                    raise KeyError(f"{qual}: no loop number {k} at this nesting level")
+                body = list(body[idxs[k]].body)
+            loop = loop[-1]
         idxs = [i for i, s in enumerate(body) if isinstance(s, (_ast.For, _ast.While))]
         if loop >= len(idxs):
             raise KeyError(f"{qual}: no top-level loop number {loop}")
